@@ -3,6 +3,7 @@ package main
 import (
 	"go/types"
 	"sort"
+	"strings"
 
 	"golang.org/x/tools/go/ssa"
 )
@@ -260,6 +261,61 @@ func accessPath(v ssa.Value) string {
 		sts := storesTo(x)
 		if len(sts) == 1 {
 			return accessPath(sts[0].Val)
+		}
+	case *ssa.Extract:
+		if c, ok := x.Tuple.(*ssa.Call); ok && x.Index == 0 {
+			return selectedPath(c)
+		}
+	case *ssa.Call:
+		return selectedPath(x)
+	}
+	return ""
+}
+
+// selectedPath: the call is to a small selector (`findBranch(label) (*Branch, bool)`) whose
+// first result is, on every return, nil or an element reached from one of its parameters
+// (`f.branches[i]`): the result then has the access path of that element, rooted at the
+// argument passed for the parameter.
+func selectedPath(c *ssa.Call) string {
+	h := c.Common().StaticCallee()
+	if h == nil || len(h.Blocks) == 0 || len(h.Blocks) > 8 || c.Common().IsInvoke() {
+		return ""
+	}
+	path := ""
+	for _, b := range h.Blocks {
+		for _, in := range b.Instrs {
+			ret, ok := in.(*ssa.Return)
+			if !ok || len(ret.Results) == 0 {
+				continue
+			}
+			rv := ret.Results[0]
+			if k, isC := rv.(*ssa.Const); isC && k.IsNil() {
+				continue
+			}
+			if cc, isCall := rv.(*ssa.Call); isCall && cc.Common().StaticCallee() == h {
+				return "" // recursive selector: not followed
+			}
+			ap := accessPath(rv)
+			if ap == "" || !strings.Contains(ap, "[]") || (path != "" && ap != path) {
+				return ""
+			}
+			path = ap
+		}
+	}
+	if path == "" {
+		return ""
+	}
+	root := path
+	if i := strings.IndexAny(path, ".["); i >= 0 {
+		root = path[:i]
+	}
+	for i, prm := range h.Params {
+		if prm.Name() == root && i < len(c.Common().Args) {
+			base := accessPath(c.Common().Args[i])
+			if base == "" {
+				return ""
+			}
+			return base + path[len(root):]
 		}
 	}
 	return ""
